@@ -531,6 +531,33 @@ func runC17(c *mon.Ctx) {
 				cs.Violation("mutation-leaks:response", "mutating a returned Response/AssertionInfo changed a later validation result")
 			}
 		}
+		// validation on rarely taken paths must not rewrite the configured store: a KeyInfo-less signature against a
+		// roll-over store whose first member is not usable at the SP clock
+		{
+			cur := w.IdP[0]
+			future := sim.Mint(sim.K("idp2"), now.AddDate(1, 0, 0), now.AddDate(2, 0, 0), 31)
+			expired := sim.Mint(sim.K("idp4"), now.AddDate(-2, 0, 0), now.AddDate(-1, 0, 0), 32)
+			orders := [][]*sim.Cert{{future, cur}, {expired, cur}, {future, expired, cur}, {cur, future}}
+			roots := certsOf(orders[r.IntN(len(orders))])
+			store := &dsig.MemoryX509CertificateStore{Roots: roots}
+			sp.IDPCertificateStore = store
+			before := spSnapshot(sp)
+			rec := sim.GenuineResponse(w.Env, 1)
+			rec.Sig = sim.DefaultSig(cur.Key, cur)
+			rec.Sig.NoKeyInfo = r.IntN(3) != 0
+			if doc, err := sim.BuildResponse(rec, sim.PlainStyle()); err == nil {
+				enc := sim.Encode(doc, sim.RawLevel)
+				first := digestResponse(sp, enc)
+				second := digestResponse(sp, enc)
+				if first != second {
+					cs.Violation("repeat-differs", "the same KeyInfo-less response against a roll-over store gives %q then %q", first, second)
+				}
+				if after := spSnapshot(sp); after != before {
+					cs.Violation("configuration-changed", "validating a response changed the configured IdP certificate store:\n before %s\n after  %s", before, after)
+				}
+			}
+			sp.IDPCertificateStore = &dsig.MemoryX509CertificateStore{Roots: certsOf(w.IdP)}
+		}
 		m1, err1 := sp.Metadata()
 		if err1 == nil {
 			b1, _ := xml.Marshal(m1)
@@ -541,6 +568,23 @@ func runC17(c *mon.Ctx) {
 			b2, _ := xml.Marshal(m2)
 			if string(b1) != string(b2) {
 				cs.Violation("mutation-leaks:metadata", "mutating returned metadata changed later metadata")
+			}
+		}
+		if dsg, err := sp.BuildLogoutRequestDocument("user", "_s"); err == nil {
+			beforeDoc, _ := dsg.WriteToString()
+			sp.BuildLogoutURLRedirect("rs", dsg)
+			sp.BuildLogoutBodyPostFromDocument("rs", dsg)
+			if afterDoc, _ := dsg.WriteToString(); afterDoc != beforeDoc {
+				cs.Violation("caller-document-modified", "building a redirect URL / POST body changed the document that was passed in")
+			}
+		}
+		if dsg, err := sp.BuildAuthRequestDocument(); err == nil {
+			beforeDoc, _ := dsg.WriteToString()
+			sp.BuildAuthURLRedirect("rs", dsg)
+			sp.BuildAuthURLFromDocument("rs", dsg)
+			sp.BuildAuthBodyPostFromDocument("rs", dsg)
+			if afterDoc, _ := dsg.WriteToString(); afterDoc != beforeDoc {
+				cs.Violation("caller-document-modified", "building a redirect URL / POST body changed the AuthnRequest document that was passed in")
 			}
 		}
 		d1, err := sp.BuildAuthRequestDocument()
